@@ -93,7 +93,9 @@ func c15(r *rep.Run) {
 	// registered variables that share their name with an operator or keyword
 	{
 		named := &term.Alphabet{Leaves: map[term.Ty][]*term.Term{X: {
-			{K: term.KVar, Name: "version", Ty: X}, {K: term.KVar, Name: "td_date", Ty: X}, {K: term.KVar, Name: "in", Ty: X}, {K: term.KVar, Name: "date", Ty: X}, {K: term.KConst, Val: int64(1), Lit: "1", Ty: X}}}}
+			{K: term.KVar, Name: "version", Ty: X}, {K: term.KVar, Name: "td_date", Ty: X}, {K: term.KVar, Name: "in", Ty: X}, {K: term.KVar, Name: "date", Ty: X}, {K: term.KConst, Val: int64(1), Lit: "1", Ty: X},
+			// identifiers that do not start with an ASCII letter (glued to ! in one rendering)
+			{K: term.KVar, Name: "名前", Ty: X}, {K: term.KVar, Name: "älter", Ty: X}, {K: term.KVar, Name: "_u", Ty: X}, {K: term.KVar, Name: "étudiant.actif", Ty: X}}}}
 		for _, op := range []string{"+", "<", "&&"} {
 			named.Ops = append(named.Ops, sig(op, X, X, X))
 		}
@@ -134,7 +136,8 @@ func c15(r *rep.Run) {
 		h.Register("g", func(a []interface{}) (interface{}, error) { return a[len(a)-1], nil })
 		h.Register("h", func(a []interface{}) (interface{}, error) { return int64(7), nil })
 	}
-	vars := []term.VarDecl{{Name: "a", Ty: X}, {Name: "b", Ty: X}, {Name: "version", Ty: X}, {Name: "td_date", Ty: X}, {Name: "in", Ty: X}, {Name: "date", Ty: X}}
+	vars := []term.VarDecl{{Name: "a", Ty: X}, {Name: "b", Ty: X}, {Name: "version", Ty: X}, {Name: "td_date", Ty: X}, {Name: "in", Ty: X}, {Name: "date", Ty: X},
+		{Name: "名前", Ty: X}, {Name: "älter", Ty: X}, {Name: "_u", Ty: X}, {Name: "étudiant.actif", Ty: X}}
 	bindings := []c15fetch{{int64(3), int64(2)}, {true, false}, {int64(0), int64(5)}, {"s", int64(1)}}
 	var renderings, nontrivial, evals int64
 	done := r.ParallelFor(len(progs), func(w, i int) {
